@@ -134,6 +134,7 @@ func init() {
 			m.callValue(c, a[0], nil, nil)
 			return nil
 		},
+		ndPkg + "Note": func(m *Machine, c *frame, a []value) value { return nil },
 		ndPkg + "Go": func(m *Machine, c *frame, a []value) value {
 			m.goThread(a[0])
 			return nil
